@@ -35,7 +35,7 @@ PROFILES: dict[str, dict[str, Any]] = {
 # level claimed per property (kept in step with tools/gen_manifest.py): "proof" once the property's
 # theorems over the kernel model are in lean/AnyioModel/Props/Cxx.lean
 LEVELS = {p: "translation_validation" for p in ("C01", "C02", "C03", "C05", "C07")}
-LEVELS.update(C04="proof", C06="proof")
+LEVELS.update(C04="proof", C06="proof", C05="proof")
 
 RULES = {
     "C01": "child spawned and group exited",
